@@ -185,6 +185,112 @@ theorem parseAll_inv (c : PCfg) (raws : List Raw) (s : PState) (cur : Int)
         rw [happ, seqApplied_append]
         exact this
 
+/-- the `db` tag of an item a step hands over is the parser's database before the
+    step, except for a forwarded `select`, whose tag is the database it selects -/
+theorem parseStep_emit_db (c : PCfg) (s : PState) (r : Raw) (i : Item)
+    (h : (parseStep c s r).2 = POut.emit i) :
+    i.db = s.currentDB ∨ (i.cmd = bSelect ∧ i.db = (parseStep c s r).1.currentDB) := by
+  by_cases hp : r.cmd = bPing
+  · unfold parseStep at h
+    simp only [hp, ↓reduceIte] at h
+    cases hf : c.filterCmdKey bPing r.args with
+    | none => simp [hf] at h
+    | some a =>
+      simp only [hf] at h
+      cases hb : s.bypass <;> simp [hb] at h
+      subst h; exact Or.inl rfl
+  · by_cases hs : r.cmd = bSelect
+    · have hne : bSelect ≠ bPing := by decide
+      unfold parseStep at h ⊢
+      simp only [hs, hne, ↓reduceIte] at h ⊢
+      cases ha : r.args with
+      | nil => simp [ha] at h
+      | cons a rest =>
+        cases rest with
+        | cons _ _ => simp [ha] at h
+        | nil =>
+          simp only [ha] at h ⊢
+          cases hn : atoi? a with
+          | none => simp [hn] at h
+          | some n =>
+            simp only [hn] at h ⊢
+            cases hdb : c.filterDb n
+            · simp only [hdb, Bool.false_eq_true, ↓reduceIte] at h ⊢
+              cases hf : c.filterCmdKey bSelect [a] with
+              | none => simp [hf] at h
+              | some x =>
+                simp only [hf] at h ⊢
+                by_cases h0 : 0 ≤ n
+                · simp only [h0, ↓reduceIte] at h ⊢
+                  by_cases hch : (selectDB c s.currentDB n).2 = true
+                  · simp only [hch, ↓reduceIte] at h ⊢
+                    injection h with h; subst h
+                    exact Or.inr ⟨rfl, rfl⟩
+                  · simp [hch] at h
+                · simp only [h0, ↓reduceIte] at h ⊢
+                  injection h with h; subst h; exact Or.inl rfl
+            · simp [hdb] at h
+    · rw [parseStep_data c s r hp hs] at h
+      by_cases h1 : c.filterCmd r.cmd = true
+      · simp [h1] at h
+      · by_cases h2 : r.cmd = bPublish ∧ (r.args.head?.map lower) = some bSentinelHello
+        · simp [h1, h2] at h
+        · by_cases h3 : s.bypass = true ∧ passBracket s r.cmd = false
+          · simp [h1, h2, h3] at h
+          · simp only [h1, h2, h3, Bool.false_eq_true, ↓reduceIte] at h
+            cases hf : c.filterCmdKey r.cmd r.args with
+            | none => rw [hf] at h; simp at h
+            | some a =>
+              rw [hf] at h
+              simp only at h
+              injection h with h; subst h; exact Or.inl rfl
+
+/-- **The parser's database tag is the connection's database**: every item the
+    parser hands over (other than a forwarded `select`) is tagged with the
+    database the target connection is in when the item executes -- or with −1
+    (a fresh / resumed parser that has not seen a SELECT yet). -/
+theorem parser_db_is_conn_db (c : PCfg) (raws : List Raw) (s : PState) (cur : Int)
+    (hinv : s.currentDB = cur ∨ s.currentDB = -1)
+    (hsel : ∀ r ∈ raws, r.cmd = bSelect → ∀ a n, r.args = [a] → atoi? a = some n → 0 ≤ n)
+    (pre post : List Item) (i : Item)
+    (h : parseAll c s raws = pre ++ i :: post) (hs : i.cmd ≠ bSelect) :
+    i.db = -1 ∨ i.db = (seqApplied cur (itemCmds pre)).1 := by
+  induction raws generalizing s cur pre with
+  | nil => simp [parseAll] at h
+  | cons r rest ih =>
+    have hsel' : ∀ r' ∈ rest, r'.cmd = bSelect → ∀ a n, r'.args = [a] → atoi? a = some n → 0 ≤ n :=
+      fun r' hr' => hsel r' (List.mem_cons_of_mem _ hr')
+    have hstep := parseStep_inv c s r cur hinv (hsel r (List.mem_cons_self ..))
+    simp only [parseAll] at h
+    cases hps : parseStep c s r with
+    | mk s' o =>
+      rw [hps] at h hstep
+      cases o with
+      | fail => simp at h
+      | skip => simp only [connAfter] at h hstep; exact ih s' cur hstep hsel' pre h
+      | emit j =>
+        simp only [connAfter] at h hstep
+        cases pre with
+        | nil =>
+          simp only [List.nil_append, List.cons.injEq] at h
+          obtain ⟨hj, _⟩ := h
+          subst hj
+          have hdb := parseStep_emit_db c s r j (by rw [hps])
+          rcases hdb with hdb | ⟨hsel', _⟩
+          · rcases hinv with h1 | h1
+            · right; simpa [itemCmds, seqApplied, hdb] using h1
+            · left; rw [hdb]; exact h1
+          · exact absurd hsel' hs
+        | cons p pre' =>
+          simp only [List.cons_append, List.cons.injEq] at h
+          obtain ⟨hj, hrest⟩ := h
+          subst hj
+          have := ih s' _ hstep hsel' pre' hrest
+          have happ : itemCmds (j :: pre') = itemCmds [j] ++ itemCmds pre' := by
+            rw [← itemCmds_append]; rfl
+          rw [happ, seqApplied_append]
+          exact this
+
 /-- a command handed over with ITS OWN offset leaves the parser outside a
     filtered database (only brackets are handed over inside one, and they carry
     an earlier offset) -/
